@@ -47,6 +47,9 @@ def C11_1(ctx, facts):
     for g in facts.fns.values():
         if not g.nkey.startswith(("client::conn::dns::SocketAddrs", "<client::conn::dns::SocketAddrs")) or "sort_preferred" in g.nkey:
             continue
+        import panics
+        if any(nm_.endswith("SocketAddrs::sort_preferred") for nm_ in panics.owner_chain(g)):
+            continue  # a private helper of sort_preferred: its effect on the list is decided by the C16.1 table
         for c in g.calls():
             tys = c.t.get("argtys") or [""]
             if tys[0].startswith("&mut std::collections::VecDeque<std::net::SocketAddr>"):
